@@ -33,5 +33,5 @@ SPEC = PropSpec(
     ),
     not_decided="Gaussian product statistics, polynomial convolution, the numerical content of the parameter operators (C14).",
     run=run,
-    floors={"R2a": 20, "R2c": 10, "R2f": 20, "R8": 2, "R7a": 1, "L1": 1},
+    floors={"R2a": 20, "R2c": 10, "R2f": 20, "R8": 2, "L1": 1},
 )
